@@ -9,6 +9,7 @@ import (
 	"os"
 	"os/exec"
 	"path/filepath"
+	"strings"
 	"sync"
 	"sync/atomic"
 	"syscall"
@@ -64,6 +65,9 @@ type Proc struct {
 	// on any claimed path, so this changes nothing there; a tree that has acquired concurrency of its
 	// own meets real parallelism (see the unstable-violation policy)
 	Parallel bool `json:"parallel,omitempty"`
+	// Unprivileged: the process runs as an ordinary user (uid/gid 65534) that owns its working
+	// directory, instead of as root, which is exempt from every permission bit
+	Unprivileged bool `json:"unprivileged,omitempty"`
 }
 
 type Record struct {
@@ -102,14 +106,15 @@ func (r *ProcResult) Completed(i int) bool { return i < len(r.Records) }
 
 // Stats are cumulative counters of the simulator (atomic: workers share them).
 type Stats struct {
-	Procs      int64
-	Ops        int64
-	Events     int64
-	NonCanon   int64
-	Timeouts   int64
-	Crashes    int64
-	ProcWallN  int64 // nanoseconds
-	TmpOtherFS int64 // processes that really ran with $TMPDIR on another file system
+	Procs        int64
+	Ops          int64
+	Events       int64
+	NonCanon     int64
+	Timeouts     int64
+	Crashes      int64
+	ProcWallN    int64 // nanoseconds
+	TmpOtherFS   int64 // processes that really ran with $TMPDIR on another file system
+	Unprivileged int64 // processes that really ran as an ordinary user
 
 	mu      sync.Mutex
 	PerSite map[string]int64 // iteration events per rewritten site
@@ -160,9 +165,26 @@ func (e *Env) RunProc(p *Proc, workDir string, timeout time.Duration, st *Stats,
 	if p.TZ != "" {
 		cmd.Env = append(cmd.Env, "TZ="+p.TZ)
 	}
+	unpriv := p.Unprivileged && os.Geteuid() == 0
+	if unpriv {
+		cmd.SysProcAttr = &syscall.SysProcAttr{Credential: &syscall.Credential{Uid: 65534, Gid: 65534}}
+		cmd.Env = append(cmd.Env, "HOME="+workDir)
+		chownTree(workDir, 65534)
+		defer chownTree(workDir, 0) // later processes of the scenario run as root again (git refuses a repository of another owner)
+		if p.Cwd != "" && !strings.HasPrefix(p.Cwd, workDir) {
+			chownTree(p.Cwd, 65534)
+			defer chownTree(p.Cwd, 0)
+		}
+		if st != nil {
+			atomic.AddInt64(&st.Unprivileged, 1)
+		}
+	}
 	if p.TmpOtherFS {
 		if d := otherFSTemp(workDir); d != "" {
 			defer os.RemoveAll(d)
+			if unpriv {
+				os.Chown(d, 65534, 65534)
+			}
 			cmd.Env = append(cmd.Env, "TMPDIR="+d)
 			if st != nil {
 				atomic.AddInt64(&st.TmpOtherFS, 1)
@@ -271,6 +293,16 @@ func (e *Env) RunProc(p *Proc, workDir string, timeout time.Duration, st *Stats,
 
 // otherFSTemp creates a temporary directory on a file system other than workDir's (tmpfs under
 // /dev/shm in this sandbox); "" if none is available - the fault is then not injected.
+// chownTree hands a directory tree to uid (and gid) uid; symbolic links themselves, not their targets.
+func chownTree(root string, uid int) {
+	filepath.Walk(root, func(p string, fi os.FileInfo, err error) error {
+		if err == nil {
+			os.Lchown(p, uid, uid)
+		}
+		return nil
+	})
+}
+
 func otherFSTemp(workDir string) string {
 	var a, b syscall.Stat_t
 	if syscall.Stat(workDir, &a) != nil {
